@@ -40,6 +40,34 @@ __all__ = [
 NumberOrArray = TypeVar("NumberOrArray", np.ndarray, float)
 
 
+def _to_float_if_array_like(value: Any) -> Any:
+    """
+    Convert lists, tuples and arrays of a non-floating dtype to a numpy
+    array of floats (double precision). Scalars and arrays of floats are
+    returned unchanged.
+
+    This is necessary because `np.log10` of an array of small integers is
+    evaluated in reduced precision (float32 for int16, float16 for uint8).
+
+    Parameters
+    ----------
+    value : float | np.ndarray | list | tuple
+        A single number or several numbers.
+
+    Returns
+    -------
+    float | np.ndarray
+        The same number(s).
+    """
+    if isinstance(value, Iterable):
+        value = np.asarray(value)
+        if value.dtype.kind != 'f':
+            value = value.astype(float)
+    elif isinstance(value, np.integer):
+        value = int(value)
+    return value
+
+
 class PathLossBase:
     """
     Base class for the different Path Loss models.
@@ -260,6 +288,7 @@ class PathLossBase:
         PL : float | np.ndarray
             Path loss (in dB) for the given distance(s).
         """
+        d = _to_float_if_array_like(d)
         PL = self._calc_deterministic_path_loss_dB(d, **kargs)
         if self.use_shadow_bool is True:  # pragma: no cover
             # Shadowing modeled by a Gaussian Distribution (in dB)
@@ -338,6 +367,7 @@ class PathLossBase:
         d : float | np.ndarray
             Distance(s) that will yield the path loss `pl`.
         """
+        pl = _to_float_if_array_like(pl)
         d = self.which_distance_dB(-conversion.linear2dB(pl))
         return d
 
@@ -513,6 +543,7 @@ class PathLossIndoorBase(PathLossBase):
         d : float | np.ndarray
             Distance(s) that will yield the path loss `pl`.
         """
+        pl = _to_float_if_array_like(pl)
         d = self.which_distance_dB(-conversion.linear2dB(pl), **kargs)
         return d
 
